@@ -148,6 +148,9 @@ def check(world, spec, outcome) -> None:
             for seq, t, kind, f in recs:
                 if kind == "step-failed-event":
                     pass
+    for st, path, seq in reexecuted_completed(recs):
+        world.violate("C12.reexecuted-completed", f"step {st} was executed again for logical event {path!r} after the resume although its "
+                      f"completion was already recorded before the snapshot", seq)
     js = outcome.get("snapshot") if outcome else None
     if js is not None:
         import re
@@ -170,6 +173,27 @@ def check(world, spec, outcome) -> None:
             world.probe("snapshot-with-pending-retry")
             pend_retry = True
     world._nt = bool(_LAST["resumed"]) and (inflight or queued or pend_retry)
+
+
+def reexecuted_completed(recs, snap_kind="snapshot"):
+    """(step, path) whose outcome the first incarnation had already processed (result tick in its tick log)
+    but which the resumed incarnation executed again."""
+    path_of: dict = {1: "r", 0: "r"}
+    done = set()
+    snap = False
+    out = []
+    for seq, t, kind, f in recs:
+        if kind == "emit" and f.get("path") is not None and f["uid"] is not None:
+            path_of[f["uid"]] = f["path"]
+        elif kind == snap_kind:
+            snap = True
+        elif kind == "tick" and f["tick"] == "step_result" and not snap and any(r[0] == "result" for r in f["res"]):
+            u = f["uid"]
+            if not isinstance(u, (list, tuple)) and u in path_of:
+                done.add((f["step"], path_of[u]))
+        elif kind == "enter" and snap and f.get("path") is not None and (f["step"], f["path"]) in done:
+            out.append((f["step"], f["path"], seq))
+    return out
 
 
 def _roundtrip(world, spec, outcome, js) -> None:
